@@ -1,6 +1,6 @@
 (* C11 — sorting and renumbering give canonical order; binary lookup equals linear scan. *)
 From Coq Require Import List Ascii ZArith Bool Arith Lia Permutation.
-From PV Require Import Base.Sx Base.Text Base.Sorting2 Spec.Hier Model.SortRenumber Model.BinFind.
+From PV Require Import Base.Sx Base.Text Base.Sorting2 Spec.Hier Model.SortRenumber Model.BinFind Proofs.C11find.
 Import ListNotations.
 
 (* 1. every sort of the family is a stable sort by the level's identifier: ordered, nothing added or lost,
@@ -65,6 +65,28 @@ Example C11_inverted_comparator_refuted :
   Chain_bfind range_cmp_inverted ex_chain 5 None = None /\ lin_chain ex_chain 5 None <> None.
 Proof. split; vm_compute; [reflexivity|discriminate]. Qed.
 
+(* the binary look-up is the linear scan: at every level, for every structure whose atom serial numbers increase strictly in
+   traversal order and that has no empty container, every serial number and every alternate location *)
+Theorem C11_binary_find_is_linear_find_conformer : forall c n, increasing (serials (c_atoms c)) = true ->
+  Conformer_bfind c n = find (fun a => Z.eqb (a_serial a) n) (c_atoms c).
+Proof. exact Conformer_bfind_linear. Qed.
+Theorem C11_binary_find_is_linear_find_chain : forall c n alt,
+  (forall r, In r (ch_residues c) -> r_atoms r <> []) -> increasing (serials (ch_atoms c)) = true ->
+  option_map (fun x => (x, c)) (Chain_bfind range_cmp c n alt) = lin_chain c n alt.
+Proof. exact Chain_bfind_linear. Qed.
+Theorem C11_binary_find_is_linear_find_model : forall m n alt,
+  (forall c, In c (m_chains m) -> ch_atoms c <> [] /\ forall r, In r (ch_residues c) -> r_atoms r <> []) ->
+  increasing (serials (m_atoms m)) = true ->
+  option_map (fun x => (x, m)) (Model_bfind range_cmp m n alt) = lin_model m n alt.
+Proof. exact Model_bfind_linear. Qed.
+Theorem C11_binary_find_is_linear_find : forall p n alt,
+  match p with
+  | [] => True
+  | m :: _ => (forall c, In c (m_chains m) -> ch_atoms c <> [] /\ forall r, In r (ch_residues c) -> r_atoms r <> []) /\
+              increasing (serials (m_atoms m)) = true
+  end -> PDB_bfind range_cmp p n alt = lin_pdb p n alt.
+Proof. exact PDB_bfind_linear. Qed.
+
 Print Assumptions C11_sort_atoms.
 Print Assumptions C11_sort_conformers.
 Print Assumptions C11_sort_residues.
@@ -73,3 +95,7 @@ Print Assumptions C11_sort_models.
 Print Assumptions C11_stable_sort_determined.
 Print Assumptions C11_sort_idempotent.
 Print Assumptions C11_binary_search.
+Print Assumptions C11_binary_find_is_linear_find_conformer.
+Print Assumptions C11_binary_find_is_linear_find_chain.
+Print Assumptions C11_binary_find_is_linear_find_model.
+Print Assumptions C11_binary_find_is_linear_find.
